@@ -168,7 +168,7 @@ type fileInfo struct {
 
 func (w *world) files(node string) map[string]fileInfo {
 	out := map[string]fileInfo{}
-	base := filepath.Join(w.specs[node].Dir, cluster.USERCOLSDIR)
+	base := filepath.Join(w.specs[node].ShardRoot(), cluster.USERCOLSDIR)
 	filepath.Walk(base, func(p string, info os.FileInfo, err error) error {
 		if err != nil || info.IsDir() || filepath.Base(p) != "sharddb.bbolt" {
 			return nil
@@ -260,7 +260,7 @@ func worker(raw json.RawMessage) (json.RawMessage, error) {
 	stop(nodes)
 	// a synthetic multi-chunk shard file (never opened as a database) on the first old node
 	if j.BigFile > 0 {
-		dir := filepath.Join(w.specs[members(j.Old)[0]].Dir, cluster.USERCOLSDIR, "aaabig", "bigc", "00000000-0000-4000-8000-0000000000b1")
+		dir := filepath.Join(w.specs[members(j.Old)[0]].ShardRoot(), cluster.USERCOLSDIR, "aaabig", "bigc", "00000000-0000-4000-8000-0000000000b1")
 		os.MkdirAll(dir, 0o755)
 		buf := make([]byte, j.BigFile)
 		for i := range buf {
@@ -455,7 +455,7 @@ func (w *world) tearPartial(all int, origFiles map[string]fileInfo, mode int) {
 	for _, n := range members(all) {
 		for rel, fi := range w.files(n) {
 			if orig, ok := origFiles[rel]; ok && fi != orig {
-				p := filepath.Join(w.specs[n].Dir, cluster.USERCOLSDIR, rel)
+				p := filepath.Join(w.specs[n].ShardRoot(), cluster.USERCOLSDIR, rel)
 				size := int64(0)
 				switch mode {
 				case 1:
